@@ -539,6 +539,23 @@ func (k *c04K) trim() {
 	if !k.call(op, class, func() { err = al.TrimSequences(k.cs.X, k.cs.Flag) }) {
 		return
 	}
+	if err != nil && L > 0 {
+		// a rejected call leaves the alignment what it was: same rows, same Length(), and the whole window can
+		// still be extracted from it
+		if got := readRows(al); !got.equal(in) || al.Length() != L {
+			k.viol(op, "rejected-call-changed-the-alignment", fmt.Sprintf("after the error the alignment holds [%s] and reports Length() %d; it held [%s], length %d", got, al.Length(), in, L))
+			return
+		}
+		var sub align.Alignment
+		var e2 error
+		if !k.call(op, class, func() { sub, e2 = al.SubAlign(0, L) }) {
+			return
+		}
+		if e2 != nil || sub == nil || !readRows(sub).equal(in) {
+			k.viol(op, "rejected-call-changed-the-alignment", fmt.Sprintf("after the error SubAlign(0,%d) of the same alignment gives error %v", L, e2))
+			return
+		}
+	}
 	if class != "" {
 		k.rejected(op, class, err)
 		return
